@@ -21,8 +21,23 @@ open Zck Zck.Format
 
 def asciiBytes (s : String) : Bytes := s.toUTF8.toList
 
+/-- decimal digits of `n` as bytes (what `%zu` prints) -/
+def dec (n : Nat) : Bytes := (Nat.toDigits 10 n).map fun c => c.toNat.toUInt8
+
+/-! the constant texts of a multipart body as explicit bytes (so that theorems can look inside them); each is checked against its
+string at compile time -/
+def bDelim : Bytes := [13, 10, 45, 45]        -- "\r\n--"
+def bBase : Bytes := [51, 100, 54, 98, 54, 97, 52, 49, 54, 102, 57, 98, 53]   -- "3d6b6a416f9b5"
+def bCT : Bytes := [67, 111, 110, 116, 101, 110, 116, 45, 84, 121, 112, 101, 58, 32, 97, 112, 112, 108, 105, 99, 97, 116, 105, 111, 110, 47, 111, 99, 116, 101, 116, 45, 115, 116, 114, 101, 97, 109]   -- "Content-Type: application/octet-stream"
+def bCR : Bytes := [67, 111, 110, 116, 101, 110, 116, 45, 82, 97, 110, 103, 101, 58, 32, 98, 121, 116, 101, 115, 32]   -- "Content-Range: bytes "
+#guard bDelim == asciiBytes "\r\n--"
+#guard bBase == asciiBytes "3d6b6a416f9b5"
+#guard bCT == asciiBytes "Content-Type: application/octet-stream"
+#guard bCR == asciiBytes "Content-Range: bytes "
+#guard dec 0 == asciiBytes (toString 0) && dec 10 == asciiBytes (toString 10) && dec 18446744073709551615 == asciiBytes (toString 18446744073709551615)
+
 /-- the server picks a new boundary for every multipart response (`n` = number of the transfer, from 1) -/
-def boundary (n : Nat) : Bytes := asciiBytes ("3d6b6a416f9b5" ++ toString n)
+def boundary (n : Nat) : Bytes := bBase ++ dec n
 
 /-- inclusive ranges clipped to the file; `none` = 416 -/
 def clip (total : Nat) (rs : List (Nat × Nat)) : Option (List (Nat × Nat)) :=
@@ -31,15 +46,15 @@ def clip (total : Nat) (rs : List (Nat × Nat)) : Option (List (Nat × Nat)) :=
 
 def sliceIncl (B : Bytes) (r : Nat × Nat) : Bytes := (B.drop r.1).take (r.2 - r.1 + 1)
 
-/-- the header of one part of a multipart body (what precedes its CRLFCRLF) -/
+/-- the header of one part of a multipart body (what precedes its CRLFCRLF):
+`\r\n--<boundary>\r\nContent-Type: application/octet-stream\r\nContent-Range: bytes <a>-<b>/<total>` -/
 def partHdr (n total : Nat) (r : Nat × Nat) : Bytes :=
-  asciiBytes "\r\n--" ++ boundary n ++ asciiBytes "\r\nContent-Type: application/octet-stream\r\n" ++
-  asciiBytes s!"Content-Range: bytes {r.1}-{r.2}/{total}"
+  bDelim ++ boundary n ++ [13, 10] ++ bCT ++ [13, 10] ++ bCR ++ dec r.1 ++ [45] ++ dec r.2 ++ [47] ++ dec total
 
 def crlf2 : Bytes := [13, 10, 13, 10]
 
-/-- the closing delimiter -/
-def closing (n : Nat) : Bytes := asciiBytes "\r\n--" ++ boundary n ++ asciiBytes "--\r\n"
+/-- the closing delimiter `\r\n--<boundary>--\r\n` -/
+def closing (n : Nat) : Bytes := bDelim ++ boundary n ++ [45, 45, 13, 10]
 
 /-- the header lines of a multipart response whose body has `len` bytes -/
 def mpLines (n len : Nat) : List Bytes :=
